@@ -1127,8 +1127,12 @@ class UrlDispatcher(AbstractRouter, Mapping[str, AbstractResource]):
             # the index key will be `/core` since index is based on the
             # url parts split by `/`
             index_key = index_key.partition("{")[0].rpartition("/")[0]
-        # the index is looked up with parts of rel_url.path_safe (decoded form)
-        return _path_safe(index_key.rstrip("/")) or "/"
+        index_key = index_key.rstrip("/")
+        if not isinstance(resource, PlainResource):
+            # Dynamic and prefix resources match the decoded form of their
+            # (requoted) canonical text; a plain path is compared as written.
+            index_key = _path_safe(index_key)
+        return index_key or "/"
 
     def index_resource(self, resource: AbstractResource) -> None:
         """Add a resource to the resource index."""
